@@ -8,7 +8,7 @@ THEOREMS = ["Mesa.Devs." + t for t in (
     "C14_queue_sorted", "C14_next_is_least_live", "C14_exactly_once_accounting", "C14_never_twice",
     "C14_only_cancelled_or_dead_discarded", "C14_cancelled_never_popped", "C14_cancelled_never_executes", "C14_cancel_marks", "C14_clock_is_event_time",
     "C14_clock_monotone", "C14_run_until_post", "C14_schedule_rejects_exactly", "C14_peek_is_execution_order",
-    "C14_priority_order_generated")]
+    "C14_priority_order_generated", "C14_upfront_events_run_in_sorted_order")]
 COUNTS = {"quick": 600, "thorough": 200000}
 TRUSTED = [
     "CPython heapq: heappop returns the least element w.r.t. SimulationEvent.__lt__ (the model keeps a sorted list)",
